@@ -268,6 +268,13 @@ func (o bufOwner) Twice(x, out1, out2 ring.Poly) {
 	o.consume(o.BuffA, out2)
 }
 
+// METASHARE control: the output borrows the operand's metadata and then rescales it
+func (e fixEvaluator) Borrow(op0, opOut *rlwe.Ciphertext) {
+	opOut.MetaData = op0.MetaData
+	e.r.MulScalar(op0.Value[0], 2, opOut.Value[0])
+	opOut.Scale = opOut.Scale.Mul(rlwe.NewScale(2))
+}
+
 // DEGLOOP control: the last component is never negated
 func (e fixEvaluator) NegHigh(op0, opOut *rlwe.Ciphertext) {
 	for i := 1; i < op0.Degree(); i++ {
